@@ -153,14 +153,76 @@ theorem rowLe_grp {a b : Row α} (h : rowLe a b = true) : a.grp ≤ b.grp := by
   simp only [rowLe, Bool.or_eq_true, decide_eq_true_eq, Bool.and_eq_true, beq_iff_eq] at h
   rcases h with h | ⟨h, _⟩ <;> omega
 
+theorem insertRow_perm {β : Type} (le : β → β → Bool) (a : β) : ∀ l : List β, (insertRow le a l).Perm (a :: l)
+  | [] => by simp [insertRow]
+  | b :: bs => by
+    simp only [insertRow]
+    split
+    · exact List.Perm.refl _
+    · exact ((insertRow_perm le a bs).cons b).trans (List.Perm.swap a b bs)
+
+theorem sortRows_perm {β : Type} (le : β → β → Bool) : ∀ l : List β, (sortRows le l).Perm l
+  | [] => List.Perm.refl _
+  | a :: l => (insertRow_perm le a _).trans ((sortRows_perm le l).cons a)
+
+theorem insertRow_pairwise {β : Type} (le : β → β → Bool) (htot : ∀ a b, le a b = false → le b a = true)
+    (htrans : ∀ a b c, le a b = true → le b c = true → le a c = true) (a : β) :
+    ∀ l : List β, l.Pairwise (fun x y => le x y = true) → (insertRow le a l).Pairwise (fun x y => le x y = true)
+  | [], _ => by simp [insertRow]
+  | b :: bs, h => by
+    simp only [insertRow]
+    split
+    · rename_i hab
+      rw [List.pairwise_cons]
+      refine ⟨?_, h⟩
+      intro y hy
+      rcases List.mem_cons.mp hy with rfl | hy
+      · exact hab
+      · exact htrans _ _ _ hab ((List.pairwise_cons.mp h).1 y hy)
+    · rename_i hab
+      have hba : le b a = true := htot a b (by simpa using hab)
+      rw [List.pairwise_cons] at h ⊢
+      refine ⟨?_, insertRow_pairwise le htot htrans a bs h.2⟩
+      intro y hy
+      have hy' : y ∈ a :: bs := (insertRow_perm le a bs).mem_iff.mp hy
+      rcases List.mem_cons.mp hy' with rfl | hy'
+      · exact hba
+      · exact h.1 y hy'
+
+theorem sortRows_pairwise {β : Type} (le : β → β → Bool) (htot : ∀ a b, le a b = false → le b a = true)
+    (htrans : ∀ a b c, le a b = true → le b c = true → le a c = true) :
+    ∀ l : List β, (sortRows le l).Pairwise (fun x y => le x y = true)
+  | [] => List.Pairwise.nil
+  | a :: l => insertRow_pairwise le htot htrans a _ (sortRows_pairwise le htot htrans l)
+
+/-- a list that is already in key order is left alone -/
+theorem sortRows_sorted {β : Type} (le : β → β → Bool) : ∀ l : List β, l.Pairwise (fun x y => le x y = true) →
+    sortRows le l = l
+  | [], _ => rfl
+  | a :: l, h => by
+    rw [List.pairwise_cons] at h
+    simp only [sortRows]
+    rw [sortRows_sorted le l h.2]
+    cases l with
+    | nil => rfl
+    | cons b bs => simp [insertRow, h.1 b (by simp)]
+
 /-- `group_taxa` permutes the rows -/
 theorem groupTaxa_perm (rows : List (Row α)) : (groupTaxa rows).Perm rows :=
-  Np.stableSort_perm rowLe rows
+  sortRows_perm rowLe rows
+
+theorem groupTaxa_pairwise (rows : List (Row α)) : (groupTaxa rows).Pairwise (fun x y => rowLe x y = true) :=
+  sortRows_pairwise rowLe rowLe_total rowLe_trans rows
+
+/-- rows already in (family, name) order are left alone -/
+theorem groupTaxa_sorted (rows : List (Row α)) (h : rows.Pairwise (fun x y => rowLe x y = true)) :
+    groupTaxa rows = rows :=
+  sortRows_sorted rowLe rows h
 
 /-- after `group_taxa` the family labels are non-decreasing -/
 theorem groupTaxa_grp_sorted (rows : List (Row α)) : ((groupTaxa rows).map Row.grp).Pairwise (· ≤ ·) := by
   rw [List.pairwise_map]
-  exact (Np.stableSort_pairwise rowLe rowLe_total rowLe_trans rows).imp (fun h => rowLe_grp h)
+  exact (groupTaxa_pairwise rows).imp (fun h => rowLe_grp h)
 
 /-- rows generated family by family keep their sequence of family labels -/
 theorem groupTaxa_grp (rows : List (Row α)) (h : (rows.map Row.grp).Pairwise (· ≤ ·)) :
